@@ -423,6 +423,29 @@ impl C07 {
 
     fn judge(&mut self, w: &mut World, s: &Step, rep: &mut Reporter) {
         let fm_addr = w.fm.to_string();
+        // a farm that comes into being with a first epoch some staker has already claimed through
+        // can never pay that staker for it, while an equal staker who has not claimed yet is paid:
+        // the total would depend on the claim schedule
+        if let (Op::Fm { msg: fm::ExecuteMsg::ManageFarm { action: fm::FarmAction::Create { .. } }, .. }, true) = (s.op, s.out.is_ok()) {
+            for (id, f) in s.fpost.farms.iter().filter(|(id, _)| !s.fpre.farms.contains_key(*id)) {
+                let mut hit = vec![];
+                for ((addr, lp), hist) in &s.fpost.weights {
+                    if lp != &f.lp_denom || addr == &fm_addr {
+                        continue;
+                    }
+                    if let Some(lc) = s.fpost.last_claimed.get(addr) {
+                        if *lc >= f.start_epoch && (f.start_epoch..=*lc).any(|e| crate::farmobs::weight_at(Some(hist), e) > 0) {
+                            hit.push(format!("{} (claimed through epoch {lc})", w.name_of(addr)));
+                        }
+                    }
+                }
+                if hit.is_empty() {
+                    rep.held("schedule_independence", hash_of(&("new_farm_after_every_cursor", f.start_epoch > s.fpre.epoch.unwrap_or(0))), || json!({"new_farm": id, "start_epoch": f.start_epoch, "current_epoch": s.fpre.epoch, "stakers_whose_cursor_already_covers_its_first_epoch": 0}));
+                } else {
+                    rep.failed("schedule_independence", None, format!("farm {id} was created with first epoch {} while stakers of its LP token have already claimed through it: {}; they can never be paid for those epochs, stakers who have not claimed yet will be", f.start_epoch, hit.join(", ")), witness(json!({"farm": format!("{f:?}"), "current_epoch": s.fpre.epoch, "stakers": hit})));
+                }
+            }
+        }
         if let Op::Fm { sender, msg: fm::ExecuteMsg::Claim { until_epoch }, funds } = s.op {
             if let (Some(cur), true) = (s.fpre.epoch, funds.is_empty()) {
                 let user = sender.to_string();
